@@ -13,14 +13,11 @@ macro_rules! dep {
         }
     };
 }
-dep!(dep_rook_moves, chess_lookup::rook_moves, Pos, BitBoard);
-dep!(dep_bishop_moves, chess_lookup::bishop_moves, Pos, BitBoard);
 dep!(dep_knight_moves, chess_lookup::knight_moves, Pos);
 dep!(dep_king_moves, chess_lookup::king_moves, Pos);
 dep!(dep_rook_rays, chess_lookup::rook_rays, Pos);
 dep!(dep_bishop_rays, chess_lookup::bishop_rays, Pos);
 dep!(dep_between, chess_lookup::between, Pos, Pos);
-dep!(dep_line, chess_lookup::line, Pos, Pos);
 dep!(dep_pawn_attacks_moves, chess_lookup::pawn_attacks_moves, Pos, Color);
 dep!(dep_pawn_attacks, chess_lookup::pawn_attacks, Pos, Color, BitBoard);
 dep!(dep_pawn_quiets, chess_lookup::pawn_quiets, Pos, Color, BitBoard);
